@@ -59,13 +59,14 @@ theorem index_records_bounded_by_input {inp inp1 : List Nat} {n : Nat} (h1 : Xz.
   Total.parseIndex_rejects_count_gt_length h1 hbig
 
 /-- the backward member scan of `LZIPReaderMT` on any file: terminates without the fuel, members are
-    inside the file, pairwise disjoint, at least 4 bytes each -/
+    inside the file, pairwise disjoint, at least 4 bytes each; the work-unit buffers of an accepted file add up
+    to exactly the file size (since the repair of `scan_members`; `≤` before) -/
 theorem lzip_mt_scan_bounded (file : List Nat) :
     match scanFile file with
     | .ok ms => ms ≠ [] ∧ ms.length ≤ file.length / 4 ∧
         (∀ m ∈ ms, 4 ≤ m.size ∧ m.start + m.size ≤ file.length) ∧
         ms.Pairwise (fun m1 m2 => m1.start + m1.size ≤ m2.start) ∧
-        (ms.map (·.size)).sum ≤ file.length
+        (ms.map (·.size)).sum = file.length
     | .error e => e ≠ .fuel ∧ e ≠ .arith :=
   Total.scanFile_total file
 
